@@ -12,8 +12,8 @@ CLAIMED = {
     "C18": dict(
         text="Static analysis of IndexClassification: in both ordering modes the loop nest that writes IndicesToInfo enumerates exactly {site} x [0,OrbitalSize) x [0,SpinSize) "
              "(full-range loops, per-site filter only as the exact complement of the range test, no truncating break/return), one counter increment per write from 0, "
-             "table sized to the sum of sizes, inverse table filled over [0,IndexSize), getInfo/getIndex read under bound / found-edge. All CFG paths.",
-        note="Decides the bijection's structural necessary conditions; relabelling invariance of physics (relational, value level) is not decided. IndexInfo::operator< hash ordering is noted, not armed.",
+             "table sized to the sum of sizes, inverse table filled over [0,IndexSize), getInfo/getIndex read under bound / found-edge; IndexInfo::operator< is lexicographic over (label hash, orbital, spin) — a derived/packed key is searched for collisions on a small domain and a collision is reported with its witness. All CFG paths.",
+        note="Decides the bijection's structural necessary conditions; relabelling invariance of physics (relational, value level) is not decided. Collisions of the label hash itself are noted, not armed.",
         technique="loop-nest shape analysis + branch-fact must-dataflow over clang CFG (custom libTooling extractor)",
         ref="DESIGN.md §3 C18"),
     "C17": dict(
@@ -71,8 +71,9 @@ CLAIMED = {
         technique="expression skeleton -> sympy normal form with index-space typed atoms + sign-domain evaluation of exp arguments + CFG branch facts",
         ref="DESIGN.md §3 C14"),
     "C11": dict(
-        text="Claimed at the level of two structural rules: (R1) GreensFunctionPart::Term in imaginary time — both branches are algebraically equal to -R e^{-tau P}/(1+e^{-beta P}), the inverse transform of R/(z-P), and every exp argument "
-             "is <= 0 in the branch where it is used for 0<=tau<=beta (the overflow-avoidance mechanism); (R2) part and total values are plain sums over all terms / parts at the same argument, and Vanishing is true initially and cleared iff a part exists.",
+        text="Claimed at the level of three structural rules: (R1) GreensFunctionPart::Term in imaginary time — both branches are algebraically equal to -R e^{-tau P}/(1+e^{-beta P}), the inverse transform of R/(z-P), and every exp argument "
+             "is <= 0 in the branch where it is used for 0<=tau<=beta (the overflow-avoidance mechanism); (R2) part and total values are plain sums over all terms / parts at the same argument, and Vanishing is true initially and cleared iff a part exists; "
+             "(R3) completeness of the Lehmann sum the symmetries are statements about: residue/pole formula typed by index space and the element-level merge walk visiting every common inner state exactly once.",
         note="Conjugation symmetry, the 1/z tail, negativity, boundary values and G_ii(beta-) = -<n_i> are value-level consequences of C01 and C09 and are NOT decided here.",
         technique="sympy normal forms of both branches + sign-domain evaluation under the branch condition; loop-shape and dominance rules",
         ref="DESIGN.md §3 C11"),
@@ -101,14 +102,16 @@ CLAIMED = {
         text="Static formula and structure conformance of the two-particle Green's function: the four term insertions of addMultiterm carry the coefficients (-C(wj+wk); C(wi+wl); C*beta*wi, C(wk-wi); -C*beta*wj, C(wj-wl)) and poles "
              "(Ej-Ei, Ek-Ej, El-Ek) with the right flags; both term classes evaluate to the documented rational forms incl. the delta branch decided on z1+z2-P1-P2 resp. z2+z3-P2-P3; in TwoParticleGFPart::compute the matrix element is "
              "O1(1,2)O2(2,3)O3(3,4)CX4(4,1)*sign and energies/weights of states 1..4 come from their own blocks (index-space typing of four sparse iterators, reaching-definition inlining); permutations3 is the six permutations with parity; "
-             "the part is evaluated at (z1,z2,-z3)[perm]; prepare selects operators by perm[k] and closes the block chain; the frequency-table path accumulates exactly the call the on-demand path sums, compute before evaluation before purge.",
+             "the part is evaluated at (z1,z2,-z3)[perm]; prepare selects operators by perm[k] and closes the block chain; the frequency-table path accumulates exactly the call the on-demand path sums, compute before evaluation before purge; "
+             "merging of like terms (operator+=) averages the poles with the weights held before the merge and adds weights and coefficients.",
         note="Equality with the triple Fourier integral and behaviour for numerically near-degenerate levels (runtime resonance decision) are not decided. The multi-term table is transcribed from the header documentation.",
         technique="sympy normal forms over index-space typed atoms, symbolic environment (reaching definitions), constant-table evaluation, switch/loop structure rules",
         ref="DESIGN.md §3 C02"),
     "C10": dict(
         text="Static structure of the eigenbasis field operators in both build configurations: FieldOperatorPart::compute fills LeftMat(n,k) = conj(U_to(l,n)) (conj present iff complex build) and RightMat(k,m) = sign*U_from(k,m) with l the inner "
              "position of the image O|K>, k of K, over all eigenstates, stores (LeftMat*RightMat).sparseView in both storage orders with pruning tolerance <= 1e-8, HFrom/HTo bound correctly; the container shortcut assigns to the c part "
-             "whose right block is the left block of the c+ entry the ADJOINT (not transpose) of the c+ part's other-major matrix and sets both statuses after computing c+; index-space consistency (eigen vs Fock) wherever eigenvectors are read.",
+             "whose right block is the left block of the c+ entry the ADJOINT (not transpose) of the c+ part's other-major matrix and sets both statuses after computing c+; index-space consistency (eigen vs Fock) wherever eigenvectors are read; "
+             "CreationOperator/AnnihilationOperator::prepare create exactly one part for every right block whose image block exists (guarded by isCorrect() and nothing else).",
         note="That the back-transformation gives the Jordan-Wigner matrix and that the CAR hold when assembled over blocks are value-level statements and are not decided; degenerate eigenvectors are Eigen's business.",
         technique="sympy comparison of element formulas per build configuration + key matching of the adjoint shortcut + index-space role typing",
         ref="DESIGN.md §3 C10"),
